@@ -624,7 +624,15 @@ def getitem(interp, base, key):
 
 
 def call(interp, f, args, kwargs):
-    return f(*args, **kwargs)
+    try:
+        return f(*args, **kwargs)
+    except TypeError as e:
+        # a call shape the assumed contract does not describe (an option of the library function that is not modelled): the
+        # path is unsupported, not an engine failure
+        msg = str(e)
+        if 'unexpected keyword argument' in msg or 'positional argument' in msg:
+            raise Unsupported('call shape outside the assumed contract: %s' % msg[:120])
+        raise
 
 
 # ------------------------------------------------------------------------------------------------
@@ -1237,8 +1245,13 @@ def np_max(x, axis=None):
     raise Unsupported('np.max')
 
 
-def np_identity(n):
+def np_identity(n, dtype=None):
     n = n if isinstance(n, int) else _I().concrete_index(n)
+    pt = getattr(dtype, 'pytype', dtype)
+    if pt is bool or dtype is BUILTINS.get('bool'):
+        return ConcArr([[i == j for j in range(n)] for i in range(n)])
+    if dtype is not None and pt not in (float, int):
+        raise Unsupported('np.identity(dtype=%r)' % (dtype,))
     return ConcArr([[1 if i == j else 0 for j in range(n)] for i in range(n)])
 
 
@@ -3088,7 +3101,23 @@ def _ca_getattr2(self, interp, name):
 
 ConcArr.sym_getattr = _ca_getattr2
 ConcArr.sym_abs = lambda self, interp: ConcArr(_deep_map(self.data, _abs))
-ConcArr.sym_unop = lambda self, interp, op: ConcArr(_deep_map(self.data, lambda x: _ca_elem('Sub', 0, x) if op == 'USub' else x))
+def _ca_unop(self, interp, op):
+    if op == 'USub':
+        return ConcArr(_deep_map(self.data, lambda x: _ca_elem('Sub', 0, x)))
+    if op == 'UAdd':
+        return ConcArr(_deep(self.data))
+    if op == 'Invert':
+        def inv(x):
+            if isinstance(x, bool):
+                return not x
+            if isinstance(x, Sym) and x.t.sort == 'B':
+                return Sym(ir.not_(x.t))
+            raise Unsupported('~ of a non-boolean array element')
+        return ConcArr(_deep_map(self.data, inv))
+    raise Unsupported('unary %s of an array' % op)
+
+
+ConcArr.sym_unop = _ca_unop
 
 
 def _ca_compare(self, interp, name, other):
